@@ -210,8 +210,9 @@ def _set(db, site, text):
         db.tables[0].indexes[0].name = text
 
 
-def gen_texts(maxlen: int, rep: core.Report):
-    cfg = open(tlc.SPEC_DIR + '/MC_Lexis.cfg').read().replace('MaxLen = 4', 'MaxLen = %d' % maxlen) + 'INVARIANT Emit\n'
+def gen_texts(maxlen: int, rep: core.Report, nlines: int = 3):
+    cfg = (open(tlc.SPEC_DIR + '/MC_Lexis.cfg').read().replace('MaxLen = 4', 'MaxLen = %d' % maxlen)
+           .replace('NLines = 3', 'NLines = %d' % nlines) + 'INVARIANT Emit\n')
     res = tlc.require_ok(tlc.run('MC_Lexis', cfg_text=cfg, workers=core.NCPU, timeout=3000), 'MC_Lexis')
     if res.violated:
         raise core.Machinery('design-level property %s violated in MC_Lexis\n%s' % (res.violated, res.out[-2000:]))
@@ -230,14 +231,23 @@ def main(argv: List[str]) -> int:
     rep.assumptions = ['host documents are fixed per site (pv/c13.py HOSTS); the literal is spliced in verbatim',
                        'SQL literal clause is decided by the SQL checks (DDL reader)']
     maxlen = 4 if core.tier() == 'quick' else 5
-    texts = gen_texts(maxlen, rep)
+    nlines = 3 if core.tier() == 'quick' else 4
+    texts = gen_texts(maxlen, rep, nlines)
+    # the layout family (lines with indentation, see MC_Lexis) is executed where layout matters: notes, as triple-quoted
+    # literals and rendered
+    def is_layout(x):
+        return len(x[1]) > maxlen and set(x[1]) <= set('an \n')
+    layout = [x for x in texts if is_layout(x)]
+    texts = [x for x in texts if not is_layout(x)]
     r = core.rng('c13')
     if core.tier() == 'quick':
         short = [x for x in texts if len(x[1]) <= 3]
         longer = [x for x in texts if len(x[1]) > 3]
         texts = short + r.sample(longer, min(len(longer), 700))
+        layout_sites = ['table_note', 'sticky_note', 'column_note']
     else:
         rep.exhaustive = True
+        layout_sites = [s for s in SITES if s.endswith('_note')]
     items: Dict[int, Dict[str, Any]] = {}
     tid = 0
     for p in texts:
@@ -252,6 +262,13 @@ def main(argv: List[str]) -> int:
         for site in SQL_SITES:
             tid += 1
             items[tid] = {'tid': tid, 't': t, 'site': site, 'route': 'sql', 'style': 'none', 'lit': []}
+    for p in layout:
+        for site in layout_sites:
+            tid += 1
+            items[tid] = {'tid': tid, 't': p[1], 'site': site, 'route': 'authored', 'style': 'triple', 'lit': p[4]}
+            tid += 1
+            items[tid] = {'tid': tid, 't': p[1], 'site': site, 'route': 'rendered', 'style': 'none', 'lit': []}
+    rep.notes['layout_texts'] = len(layout)
     chunks = core.chunked(list(items.values()), core.NCPU * 4)
     recs: List[Dict[str, Any]] = []
     for part in core.pmap(_exec_chunk, chunks):
